@@ -14,6 +14,7 @@ CompoundV(F) ==
   LET Fs == SeqsUpTo(F, 2) IN
        {TupleV(fs) : fs \in Fs} \cup {SomeV(fs) : fs \in Fs}
   \cup {NoneV(ts) : ts \in SeqsUpTo({BoolT, IntT(3), QubitT}, 2)}
+  \cup {NoneV(<<OptionT(<<BoolT>>)>>), NoneV(<<OptionT(<<>>)>>), NoneV(<<TupleT(<<BoolT>>)>>)}      \* the absent value of a nested option: Option(Option(Bool))
   \cup {LeftV(fs, ts) : fs \in Fs, ts \in {<<>>, <<BoolT>>, <<QubitT, IntT(5)>>}}
   \cup {RightV(ts, fs) : fs \in Fs, ts \in {<<>>, <<BoolT>>, <<QubitT, IntT(5)>>}}
   \cup {SumV(1, GenSumT(<<<<QubitT>>, TypesOfS(fs), <<>>>>), fs) : fs \in Fs}        \* a well-typed general sum value, tag 1 of 3
